@@ -195,6 +195,12 @@ func cmdSelftestDet(args []string) {
 	must(fs.Parse(args))
 	r := getRunner(*prop, "quick")
 	total := r.NumCases("quick")
+	simrt.OnDeadlock = func(blocked int) {
+		// a deadlock is a finding of the check proper, not a determinism matter: it is
+		// deterministic as well, so all three self-test runs print the same line and stop
+		fmt.Printf("deadlock with %d goroutines blocked (reported by the check itself)\n", blocked)
+		os.Exit(0)
+	}
 	for i := 0; i < *n; i++ {
 		idx := int(splitmix(*seed^0xabcdef, uint64(i)) % uint64(total))
 		vv := r.RunCase(*seed, idx)
